@@ -46,6 +46,7 @@ enum kind : int {
     k_thread_start, // background thread body entered; a: 1 epoch thread, 2 gc thread
     k_thread_exit,  // background thread body about to return
     k_sleep,        // sleepMs called; a = ms
+    k_begin_pre,    // thread_info::begin_epoch_ about to be stored (before); a = epoch (already loaded by the caller)
 };
 
 using hook_fn = void (*)(int, const void*, std::uint64_t, std::uint64_t);
